@@ -381,8 +381,36 @@ func joinedHeaderValue(h http.Header, name string) string {
 	return normalizeHeaderValues(h.Values(name))
 }
 
+// isSameOrigin compares the (scheme, host, port) origin tuples of u1 and u2
+// (RFC 6454): host names are compared ASCII case-insensitively and a missing
+// port means the default port of the scheme.
 func isSameOrigin(u1, u2 *url.URL) bool {
-	return u1.Scheme == u2.Scheme && u1.Host == u2.Host
+	return u1.Scheme == u2.Scheme &&
+		asciiLower(u1.Hostname()) == asciiLower(u2.Hostname()) &&
+		effectivePort(u1) == effectivePort(u2)
+}
+
+func asciiLower(s string) string {
+	b := []byte(s)
+	for i, c := range b {
+		if 'A' <= c && c <= 'Z' {
+			b[i] = c + ('a' - 'A')
+		}
+	}
+	return string(b)
+}
+
+func effectivePort(u *url.URL) string {
+	if port := u.Port(); port != "" {
+		return port
+	}
+	switch u.Scheme {
+	case "https":
+		return "443"
+	case "http":
+		return "80"
+	}
+	return ""
 }
 
 func verifyHeaders(e *Exchange) error {
